@@ -13,12 +13,22 @@
 //! zones.  The whole allocation is first filled with garbage (two different fills), then the inputs are written.  After
 //! the call every byte outside the operand regions and the scratch window must be what it was (canaries), and the bytes
 //! of the selected output column must be the same for both fills (an out-of-bounds READ, or a read of a stale /
-//! uninitialised byte, makes them differ).  With the cargo feature `c17hook` (needs the `poulpy_hal::verif` hook in
-//! /repo) the accessor hook's violation counter is read as well.
+//! uninitialised byte, makes them differ).
+//!
+//! Accessor hook: `work/proposed_hooks/c17_bounds.diff` adds `poulpy_hal::verif` (compiled with `--cfg poulpy_verif`, which
+//! `harness/.cargo/config.toml` already passes).  This file compiles with and without it: the calls to
+//! `poulpy_hal::verif::{reset, violations}` are behind the cargo feature `c17hook` of the harness crate
+//! (`[features] c17hook = []`, to be made a default feature once the hook is in /repo); without the feature the
+//! violation count is reported as 0.
+//!
+//! Modes of the binary: `gen` / `exec` (run_main), `list <tier> <seed> <out> [hazard]` (inputs only),
+//! `demo <in> <out>` (forces ill-formed subjects too).  Environment: C17_SEPARATE=1 puts every operand region and the
+//! scratch window into its own exact-size heap allocation (sanitizer runs), C17_UNINIT=1 additionally leaves the
+//! non-input bytes uninitialised (memcheck), C17_MIRI=1 allocates the arena without the library's aligned allocator.
 //!
 //! The scratch window is EXACTLY `tmp_bytes` bytes at a 64-byte aligned address; if the operation rejects it with the
 //! scratch-size panic (property C12's domain) the window grows in steps of 64 bytes until the operation accepts it.
-#![allow(clippy::too_many_arguments, clippy::type_complexity)]
+#![allow(clippy::too_many_arguments, clippy::type_complexity, dead_code)]
 use poulpy_core::api::*;
 use poulpy_core::layouts::*;
 use poulpy_core::{EncryptionLayout, ScratchTakeCore};
@@ -764,7 +774,8 @@ pub fn gen_stream(tier: &str, seed: u64, zone: u8) -> Vec<Rec> {
                     21 => e[0] = g.range(2, 20),
                     22..=29 => { e[0] = g.range(2, 20); e[1] = g.range(0, e[0] * (sh[0][1] as i64 + 2)); }
                     50 | 55 => { e[0] = g.range(1, 3); e[1] = g.range(0, 4); }
-                    70 => { e[0] = g.range(1, 3); }
+                    70 => { e[0] = g.range(1, 3);
+                            if zone == 2 && rep % 2 == 0 { e[0] = 1; sh[1][1] = 1; sh[0][0] = 1; sh[0][2] = 0; } }   // tiny matrices: the silent no-op case
                     71 | 72 => { e[0] = g.range(1, 3); e[1] = if opc == 71 { g.range(0, sh[2][1] as i64) } else { 0 }; sh[2][0] = 1; sh[2][2] = 0; }
                     90..=93 => {
                         let rank = g.range(1, 2) as usize;
